@@ -476,8 +476,10 @@ def analyse(hist, rm: RM, outcome, cfg=None, want=None) -> Analysis:
                 if x.tau[0] <= t:
                     continue
                 causes = dem[sid].get(x.tau, [])
-                if any(c[0] == "event" for c in causes):
-                    continue        # (external events of real-time mode: nobody can foresee them)
+                if cfg.get("rt_factor") and any(_from_event(c, steps, dem, {}) for c in causes):
+                    # (external events of real-time mode, and whatever they trigger down the line: nobody
+                    # can foresee them)
+                    continue
                 dep = [_dependent(c, sid, t, steps, dem, {}) for c in causes]
                 if causes and not any(dep):
                     A.add(V("C07", "broken_promise", sid=sid, tau=st.tau, max_advance=m,
@@ -504,6 +506,23 @@ def _event_sids(rm):
              if s.get("set_events") or s.get("events")
              or any(c.get("kind") == "set_event" for c in (s["beh"].get("async_calls") or ()))}
         rm._event_sids = r
+    return r
+
+
+def _from_event(cause, steps, dem, memo) -> bool:
+    """Does this cause go back to an external event (set_event)?"""
+    kind = cause[0]
+    if kind == "event":
+        return True
+    if kind == "initial":
+        return False
+    key = (cause[1], cause[2])
+    if key in memo:
+        return memo[key]
+    memo[key] = False       # cycle guard
+    y = steps[cause[1]][cause[2]]
+    r = y.tau is not None and any(_from_event(c, steps, dem, memo) for c in dem[cause[1]].get(y.tau, []))
+    memo[key] = r
     return r
 
 
